@@ -27,15 +27,15 @@ CHECKS = {
         note="Trusted: as C14; F uninterpreted - that all front-ends compute the same F rests on the structural fact that they all call Typstyle::format_source_inspect/format_content (checked in the dump).",
         ref="DESIGN.md §5 C16"),
     'C19': dict(
-        text="Solver-decided within bounds, not a proof. convert_import_items (+closures) and check_import_name_duplication are executed from MIR over every sequence of up to K nodes (3 quick / 4 thorough), each a plain item (1-2 identifier path), a renamed item, or any other node kind (symbolic), identifier texts symbolic; the list stylist is opaque but records the sequence it receives. z3 decides: flag off => sequence unchanged; flag on => a permutation, unchanged whenever a comment is present or two items bind the same name, otherwise sorted by item text. Config::default has the flag off and StyleArgs::to_config passes the CLI flag through (real MIR); the option is read nowhere else (structural, same dump).",
+        text="Solver-decided within bounds, not a proof. convert_import_items (+closures) and check_import_name_duplication are executed from MIR over every sequence of up to K nodes (3 quick / 4 thorough), each a plain item (1-2 identifier path), a renamed item, or any other node kind (symbolic), identifier texts symbolic; the list stylist is opaque but records the sequence it receives. z3 decides: flag off => sequence unchanged; flag on => a permutation, unchanged whenever a comment is present or two items bind the same name, otherwise canonical (the resulting item order does not depend on the order in the source; which key is used is left to the implementation). Config::default has the flag off and StyleArgs::to_config passes the CLI flag through (real MIR); the option is read nowhere else (structural, same dump).",
         note="Trusted: mirsym encoder; contracts for sort_by_key (stable sort by key), HashSet insert, typst-syntax accessors; the list stylist prints items in the order received (not decided here). Longer imports and identifier texts longer than 1 character are outside the bound.",
         ref="DESIGN.md §5 C19"),
     'C08': dict(
-        text="Solver-decided within bounds, not a proof; mechanism level. convert_space / convert_parbreak / convert_text with has_linebreak / count_linebreaks / repeat_n are executed from MIR over every whitespace token of up to N code points (3 quick / 4 thorough; each any White_Space scalar, so all newline characters Typst recognises): a Space token becomes a hard line break iff it holds a Typst newline, else one blank; a Parbreak with k newlines (CR LF once) becomes exactly k hard line breaks; Text is verbatim. Counterexamples are replayed as markup `a<ws>b` through format_content. Composition through nested markup, the parser and the renderer is not covered.",
+        text="Solver-decided within bounds, not a proof; mechanism level. convert_space / convert_parbreak / convert_text with has_linebreak / count_linebreaks / repeat_n are executed from MIR over every whitespace token of up to N code points (3 quick / 4 thorough; each any White_Space scalar, so all newline characters Typst recognises): a Space token becomes a hard line break iff it holds a Typst newline, else one blank; a Parbreak with k newlines (CR LF once) becomes exactly k hard line breaks; Text is verbatim. Markup loop: collect_markup_repr + convert_markup_impl over child sequences of up to K nodes (3 quick / 4 thorough) from {text, space, parbreak, expression, strong, comments, hash, list item}, every scope / context / multiline flag, converters opaque: interior whitespace maps 1-1 in order, children conserved in order, expressions on a line holding text are converted with breaks suppressed. Counterexamples are replayed as real markup through format_content. Composition through nested markup, the parser and the renderer is not covered.",
         note="Trusted: mirsym encoder; lexer facts about whitespace tokens (stated in assumptions); Doc algebra contracts; typst_syntax::is_newline contract (validated natively at setup).",
         ref="DESIGN.md §5 C08"),
     'C03': dict(
-        text="Solver-decided within bounds, mechanism level, not a proof and NOT the end-to-end statement (format o format through parser and renderer is out of reach). (1) strip(strip(s)) = strip(s) for every UTF-8 string of up to N code points (5 quick / 7 thorough). (2) comment.rs: for every block comment '/*' + up to M code points (5/7) + '*/' and each start column in {0,2}/{0,1,2,5}, the comment as laid out by align()/hang(1) and post-processed is mapped by a second block_comment pass to the same text and style. This obligation found a genuine defect (tab-only comment lines), fixed in /repo.",
+        text="Solver-decided within bounds, mechanism level, not a proof and NOT the end-to-end statement (format o format through parser and renderer is out of reach). (1) strip(strip(s)) = strip(s) for every UTF-8 string of up to N code points (5 quick / 7 thorough). (2) comment.rs: for every block comment '/*' + up to M code points (5/7) + '*/' and each start column in {0,2}/{0,1,2,5}, the comment as laid out by align()/hang(1) and post-processed is mapped by a second block_comment pass to the same text and style. This obligation found a genuine defect (tab-only comment lines), fixed in /repo. (3) ListStylist with every ListStyle the crate builds: a list laid out on one line holds no doubled blank (found and fixed: kept blank lines). (4) convert_import_items with reordering on chooses the same order for source spacing and formatted spacing (found and fixed: raw-text sort key).",
         note="Trusted: mirsym encoder; std string contracts; pretty's align/hang semantics (indent = column of comment start, +1 for hang). Outside: multiline-flavour / attach-detach / boundary reproduction, which need the parser on formatter output.",
         ref="DESIGN.md §5 C03"),
     'C04': dict(
@@ -47,12 +47,12 @@ CHECKS = {
         note="Trusted: mirsym encoder; std/typst-syntax/pretty contracts; parser facts stated as assumptions.",
         ref="DESIGN.md §5 C05"),
     'C06': dict(
-        text="Solver-decided within bounds, mechanism level, not a proof. comment.rs: every block comment '/*' + up to M code points + '*/' keeps its line count and each line up to leading blanks of continuation lines / trailing blanks; every line comment is emitted byte-identically. Conservation: ListStylist (every ListStyle the crate builds, every fold style/option) and convert_flow_like_iter + FlowStylist over child sequences <= K: comment and item atoms appear exactly once each, in source order, in both observed layouts. Chain/plain stylists, markup- and math-level placement and 'same neighbouring words' across constructs are outside.",
+        text="Solver-decided within bounds, mechanism level, not a proof. comment.rs: every block comment '/*' + up to M code points + '*/' keeps its line count and each line up to leading blanks of continuation lines / trailing blanks; every line comment is emitted byte-identically. Conservation: ListStylist (every ListStyle the crate builds, every fold style/option) and convert_flow_like_iter + FlowStylist over child sequences <= K: comment and item atoms appear exactly once each, in source order, in both observed layouts. Dot chains (convert_field_access, try_convert_dot_chain(_plain), ChainStylist) on a.f0.f1[(..)] with up to two comments at the gaps around the dots, every mode/suppression flag/chain width: comments and links re-emitted once, in order (found and fixed: comment dropped when breaks are suppressed). Binary chains, plain stylist, markup- and math-level placement and 'same neighbouring words' across constructs are outside.",
         note="Trusted: as C04.",
         ref="DESIGN.md §5 C06"),
     'C10': dict(
-        text="Solver-decided within bounds, kernel level, not a proof. convert_trivia_untyped / convert_verbatim_untyped / convert_literal emit the token / node text unchanged for every text of up to N code points and any kind. strip_trailing_whitespace versus literal bytes: for s = p.t.q (t any token text with non-blank first/last character) strip(s) contains t with at most the blanks directly before a line feed removed; that t itself survives is false - the KNOWN FINDING (post-processing is literal-blind; two classes, replayed through format_content, listed in known_findings.json) - and any other change of t is reported as a new violation.",
-        note="Trusted: mirsym encoder; std string contracts; Doc contracts. Typst's dedent rule on re-parse, convert_raw and lexing of numbers/identifiers are outside.",
+        text="Solver-decided within bounds, kernel level, not a proof. convert_trivia_untyped / convert_verbatim_untyped / convert_literal emit the token / node text unchanged for every text of up to N code points and any kind. strip_trailing_whitespace versus literal bytes: for s = p.t.q (t any token text with non-blank first/last character) strip(s) contains t with at most the blanks directly before a line feed removed; that t itself survives is false - the KNOWN FINDING (post-processing is literal-blind; two classes, replayed through format_content, listed in known_findings.json) - and any other change of t is reported as a new violation. convert_raw on raw elements with 1 or 3 backticks, optional language tag, 1-2 text lines with symbolic characters and symbolic newline characters: an inline raw spanning lines is copied verbatim, a rebuilt raw re-emits delimiter, tag and text unchanged in order with trimmed whitespace mapped to blank / hard line break (native confirmation through Typst's own Raw::lines).",
+        note="Trusted: mirsym encoder; std string contracts; Doc contracts; Raw::block contract. Typst's dedent rule on re-parse and lexing of numbers/identifiers are outside.",
         ref="DESIGN.md §5 C10"),
     'C07': dict(
         text="Solver-decided within bounds, mechanism-complete, not a proof. Marking: compute_no_format_impl over every sequence of up to K children (4 quick / 5 thorough) with symbolic kinds and a symbolic 'contains @typstyle off' per comment: a child is marked iff it is a directive comment or the first sibling after one that is neither comment, whitespace nor hash; has_comment iff some child is a comment; recursion exactly into unmarked non-comment children. Consumption: convert_expr (all expression kinds), convert_pattern, convert_math, convert_code_block with the mark symbolic: marked => exactly text(source text of the node), nothing else converted; unmarked => ordinary conversion. Structural: convert_expr is the only caller of convert_expr_impl.",
